@@ -524,8 +524,8 @@ def rule_elems(E, R):
             verdict = None
             # A typed
             if typed_impl or re.search(r"FromIterator<V>>::from_iter$|FromIterator<\(alloc::boxed::Box<\[u8\]>, V\)>>::from_iter$", fn):
-                srcs = [norm(x.get("callee", "")) for x in exprs(c, ("Call", "MethodCall"))] + \
-                       [def_path(p) or "" for p in exprs(c, "Path")]
+                srcs = [norm(x.get("callee", "")) for x in exprs_deep(c, ("Call", "MethodCall"))] + \
+                       [def_path(p) or "" for p in exprs_deep(c, "Path")]
                 if any(s.endswith("IntoValue::into_value") for s in srcs):
                     verdict = ("typed", "value produced by IntoValue::into_value of the wrapper's element type")
             # C identity
